@@ -325,8 +325,17 @@ def listener_pass(ctx):
         heard = {}
         observers = []
 
+        equal_observers = k % 3 == 1      # observers that compare equal without being one (value objects: dataclasses, views)
+
         def make(i, kind):
             class Obs(EObserver):
+                if equal_observers:
+                    def __eq__(self, other):
+                        return isinstance(other, EObserver)
+
+                    def __hash__(self):
+                        return 7
+
                 def notifyChanged(self, n, i=i, kind=kind):
                     heard.setdefault(i, []).append((n.kind.name, n.feature.name, n.old, n.new if not isinstance(n.new, list) else tuple(n.new)))
                     if kind == 'leaves-once-told' and self in holder.listeners:
@@ -337,6 +346,8 @@ def listener_pass(ctx):
         kinds = [rng.choice(['passive', 'passive', 'leaves-once-told']) for _ in range(rng.randint(2, 5))]
         if 'passive' not in kinds:
             kinds[-1] = 'passive'
+        if equal_observers:
+            kinds = ['passive'] * len(kinds)      # (taking one of several equal observers off a list is list.remove's business)
         on_resource = rng.random() < .3 and a.eResource is res
         holder = res if on_resource else a
         for i, kd in enumerate(kinds):
@@ -446,6 +457,78 @@ def resource_observer_pass(ctx):
             return
 
 
+def self_opposite_pass(ctx):
+    """a many-valued reference that is its own opposite (friends), objects that may be their own friend, an observer on
+    every object: the mirror kept from the notifications alone (a multiset per object) equals the real contents after every
+    call — append, remove, clear, `del`, whole assignment, delete() — and is never told to remove what it does not hold"""
+    from collections import Counter
+    from pyecore import ecore as E
+    from pyecore.notification import EObserver, Kind
+    for k in range(60 if ctx.quick() else 1500):
+        rng = common.sub_rng(ctx.seed, 'C05', 'self-opposite', k)
+        P = E.EClass('P')
+        fr = E.EReference('friends', P, upper=-1, unique=k % 4 != 3)
+        P.eStructuralFeatures.append(fr)
+        fr.eOpposite = fr
+        objs = [P() for _ in range(rng.randint(2, 4))]
+        mirror = {id(o): Counter() for o in objs}
+        complaints = []
+
+        def tell(n):
+            m = mirror[id(n.notifier)]
+            if n.feature is not fr:
+                return
+            gone = [n.old] if n.kind is Kind.REMOVE else (list(n.old) if n.kind is Kind.REMOVE_MANY else [])
+            come = [n.new] if n.kind is Kind.ADD else (list(n.new) if n.kind is Kind.ADD_MANY else [])
+            for v in gone:
+                if m[id(v)] <= 0:
+                    complaints.append(f'{n.kind.name} names an element the mirror does not hold')
+                else:
+                    m[id(v)] -= 1
+            for v in come:
+                # (a unique feature is mirrored as a set: being told again of an element it holds changes nothing)
+                m[id(v)] = 1 if fr.unique else m[id(v)] + 1
+        for o in objs:
+            EObserver(o, notifyChanged=tell)
+        calls = []
+        for step in range(rng.randint(3, 9)):
+            o = rng.choice(objs)
+            t = rng.choice(objs)
+            c = rng.random()
+            try:
+                if c < .45:
+                    if fr.unique and any(v is t for v in o.friends):
+                        continue
+                    calls.append('append' + (' (itself)' if t is o else '')); o.friends.append(t)
+                elif c < .6 and len(o.friends):
+                    v = rng.choice(list(o.friends)); calls.append('remove' + (' (itself)' if v is o else '')); o.friends.remove(v)
+                elif c < .72:
+                    calls.append('clear'); o.friends.clear()
+                elif c < .8:
+                    calls.append('del'); del o.friends
+                elif c < .9:
+                    new = rng.sample(objs, rng.randint(0, len(objs)))
+                    calls.append(f'assign {len(new)}' + (' (itself among them)' if any(v is o for v in new) else '')); o.friends = new
+                else:
+                    calls.append('delete()'); o.delete()
+            except Exception as e:
+                calls[-1] += f' raised {type(e).__name__}'
+            ctx.evaluations += 1
+            bad = complaints[0] if complaints else None
+            if not bad:
+                for x in objs:
+                    real = Counter(id(v) for v in x.friends)
+                    if +mirror[id(x)] != real:
+                        bad = f'the mirror of an object holds {sum(mirror[id(x)].values())} friends, the object {sum(real.values())}'
+                        break
+            if bad:
+                ctx.violate({'clause': 'mirror', 'self_opposite': True, 'unique': bool(fr.unique)},
+                            f'mirror (a reference that is its own opposite, unique={fr.unique}) after {calls}: {bad}',
+                            {'self_opposite': k, 'calls': calls})
+                return
+        ctx.nontriv(('self-opposite', k))
+
+
 def run(ctx):
     common.use_repo()
     ctx.rule = ('(a) exhaustive slot level: every slot state over a universe of 3 (quick) / 4 elements x every mutator x every index '
@@ -459,6 +542,7 @@ def run(ctx):
     crossworld.notification_pass(ctx)
     listener_pass(ctx)
     resource_observer_pass(ctx)
+    self_opposite_pass(ctx)
     equal_values_pass(ctx)
     ctx.assumptions += ['set.discard() is not in the property\'s operation list and bypasses notification (not judged)',
                         'notifications that report no change (SET old==new, ADD of a present element of a set) are not violations',
